@@ -24,6 +24,10 @@ package generator
 //@ emitted func middlewares(h http.Handler, ms ...Middleware) http.Handler
 //@   pure
 //@   purefunc
+//@   option props=C14
+//@   requires forall i in 0..len(ms): ms[i] != nil
+//@   ensures result != nil
+//@   loop #0 invariant h != nil && i < len(ms)
 
 //@ emitted func authMiddlewareOr(fns ...AuthMiddleware) MiddlewareFunc
 //@   pure
@@ -36,3 +40,25 @@ package generator
 //@   option family=route
 //@   requires path == "" || startsSlash(path)          // every node but the root
 //@   ensures (h, out, hasPath) == refRouteAt(SPEC, NODE, path, method)
+
+// ---- file_handler.gotmpl --------------------------------------------------
+
+// nResp(trace): number of responses in the event trace (a WriteHeader, or a
+// delegation to another http.Handler, which inductively writes exactly one).
+
+//@ emitted func writeJSON(w io.Writer, v interface{}, name string)
+//@   option props=C14,C02
+//@   option keepsResp=true
+//@   requires nResp(trace) >= 1                         // the status line goes first
+//@   ensures nResp(trace) == nResp(old(trace))
+
+// Responder families (instantiated by the engine for every emitted function of
+// that shape; DESIGN.md §4.14):
+//
+//   emitted func *(w http.ResponseWriter, r *http.Request)        ensures nResp(trace) == nResp(old(trace)) + 1
+//   emitted func (*).Write(w http.ResponseWriter [, code int])    ensures nResp(trace) == nResp(old(trace)) + 1
+//   emitted func (*).write<Op>(w http.ResponseWriter)             ensures nResp(trace) == nResp(old(trace)) + 1
+//
+// Environment preconditions (engine/vc/envpre.go): *http.Request parameters
+// and their URL are non-nil, pointer receivers and writers are non-nil,
+// operation handler funcs are set.
